@@ -816,7 +816,7 @@ func ruleBits(p *Prog, r *Report) {
 	ruleLuma(p, r)
 	r.Floor("LUMA", 1)
 	ruleSibling(p, r)
-	r.Floor("SIBLING", 3)
+	r.Floor("SIBLING", 4)
 }
 
 func isFloat(t types.Type) bool {
@@ -1550,7 +1550,7 @@ func ruleOffs(p *Prog, r *Report) {
 		return
 	}
 	n := 0
-	for _, f := range p.LibReach(hash) {
+	for _, f := range hashPkgFns(p, hash) {
 		eachInstr(f, func(_ *ssa.BasicBlock, _ int, in ssa.Instruction) {
 			var base, idx ssa.Value
 			switch x := in.(type) {
@@ -1803,10 +1803,13 @@ func ruleLuma(p *Prog, r *Report) {
 		r.Undecided("LUMA", key, "-", "unresolved anchor")
 		return
 	}
-	var canon func(f *ssa.Function, v ssa.Value, d int) string
-	canon = func(f *ssa.Function, v ssa.Value, d int) string {
+	var canonS func(f *ssa.Function, v ssa.Value, d int, subst map[ssa.Value]string) string
+	canonS = func(f *ssa.Function, v ssa.Value, d int, subst map[ssa.Value]string) string {
 		if d > 20 {
 			return "…"
+		}
+		if s, ok := subst[v]; ok {
+			return s
 		}
 		switch x := v.(type) {
 		case *ssa.Const:
@@ -1821,12 +1824,30 @@ func ruleLuma(p *Prog, r *Report) {
 				}
 			}
 		case *ssa.BinOp:
-			return "(" + canon(f, x.X, d+1) + " " + x.Op.String() + " " + canon(f, x.Y, d+1) + ")"
+			return "(" + canonS(f, x.X, d+1, subst) + " " + x.Op.String() + " " + canonS(f, x.Y, d+1, subst) + ")"
 		case *ssa.Convert:
-			return x.Type().String() + "(" + canon(f, x.X, d+1) + ")"
+			return x.Type().String() + "(" + canonS(f, x.X, d+1, subst) + ")"
+		case *ssa.Call:
+			// a straight-line library helper (channel8(v) = float64(v/257)) is expanded in place
+			if sc := x.Call.StaticCallee(); sc != nil && isRepoFn(sc) && len(sc.Blocks) == 1 && len(sc.Params) == len(x.Call.Args) {
+				var ret *ssa.Return
+				for _, in := range sc.Blocks[0].Instrs {
+					if rt, ok := in.(*ssa.Return); ok {
+						ret = rt
+					}
+				}
+				if ret != nil && len(ret.Results) == 1 {
+					s2 := map[ssa.Value]string{}
+					for i, prm := range sc.Params {
+						s2[prm] = canonS(f, x.Call.Args[i], d+1, subst)
+					}
+					return canonS(sc, ret.Results[0], d+1, s2)
+				}
+			}
 		}
 		return "?" + shortVal(v)
 	}
+	canon := func(f *ssa.Function, v ssa.Value, d int) string { return canonS(f, v, d, nil) }
 	form := func(f *ssa.Function) (string, string) {
 		if len(f.Blocks) != 1 {
 			return "", fmt.Sprintf("%s has %d basic blocks: the luminance of a pixel depends on a branch", fnName(f), len(f.Blocks))
@@ -2040,20 +2061,38 @@ func canonSSA(f *ssa.Function) string {
 	for i, prm := range f.Params {
 		ids[prm] = fmt.Sprintf("p%d", i)
 	}
+	typ := func(t types.Type) string {
+		s := t.String()
+		s = strings.ReplaceAll(s, "float32", "F")
+		s = strings.ReplaceAll(s, "float64", "F")
+		return s
+	}
+	// a conversion between the two float widths is the identity once they are unified: it gets no number of its own
+	alias := map[ssa.Value]ssa.Value{}
 	n := 0
 	for _, b := range f.Blocks {
 		for _, in := range b.Instrs {
+			if cv, ok := in.(*ssa.Convert); ok && typ(cv.Type()) == "F" && typ(cv.X.Type()) == "F" {
+				alias[cv] = cv.X
+				continue
+			}
 			if v, ok := in.(ssa.Value); ok {
 				ids[v] = fmt.Sprintf("v%d", n)
 				n++
 			}
 		}
 	}
-	typ := func(t types.Type) string {
-		s := t.String()
-		s = strings.ReplaceAll(s, "float32", "F")
-		s = strings.ReplaceAll(s, "float64", "F")
-		return s
+	for cv, x := range alias {
+		for {
+			if y, ok := alias[x]; ok {
+				x = y
+				continue
+			}
+			break
+		}
+		if id, ok := ids[x]; ok {
+			ids[cv] = id
+		}
 	}
 	name := func(v ssa.Value) string {
 		if v == nil {
@@ -2087,6 +2126,11 @@ func canonSSA(f *ssa.Function) string {
 		for _, in := range b.Instrs {
 			if _, dbg := in.(*ssa.DebugRef); dbg {
 				continue
+			}
+			if cv, ok := in.(*ssa.Convert); ok {
+				if _, isAlias := alias[cv]; isAlias {
+					continue
+				}
 			}
 			op := fmt.Sprintf("%T", in)
 			extra := ""
@@ -2126,10 +2170,12 @@ func canonSSA(f *ssa.Function) string {
 }
 
 func ruleSibling(p *Prog, r *Report) {
-	for _, nm := range []string{"quickSelectMedian", "MedianOfPixels64", "MedianOfPixels256"} {
-		a := p.Func("imagehash/transforms", "", nm)
-		b := p.Func("imagehash/transforms32", "", nm)
-		key := "imagehash/transforms." + nm + " == imagehash/transforms32." + nm
+	for _, pr := range [][2]string{{"quickSelectMedian", "quickSelectMedian"}, {"MedianOfPixels64", "MedianOfPixels64"}, {"MedianOfPixels256", "MedianOfPixels256"},
+		// the portable YCbCr converters of the two families: the luminance both hashes are defined on
+		{"PixelYCnCRGray", "yCbCrToGrayAlt"}} {
+		a := p.Func("imagehash/transforms", "", pr[0])
+		b := p.Func("imagehash/transforms32", "", pr[1])
+		key := "imagehash/transforms." + pr[0] + " == imagehash/transforms32." + pr[1]
 		if a == nil || b == nil || len(a.Blocks) == 0 || len(b.Blocks) == 0 {
 			r.Undecided("SIBLING", key, "-", "unresolved anchor: one of the two copies is missing")
 			continue
@@ -2155,6 +2201,6 @@ func ruleSibling(p *Prog, r *Report) {
 				break
 			}
 		}
-		r.Bad("SIBLING", key, p.posStr(b.Pos()), "the float64 and the float32 copy are no longer the same algorithm ("+diff+"): the two hash families then take different thresholds for the same coefficients; a deliberate change has to be made in both copies")
+		r.Bad("SIBLING", key, p.posStr(b.Pos()), "the float64 and the float32 copy are no longer the same algorithm ("+diff+"): the two hash families then compute different things from the same input (another threshold, another luminance); a deliberate change has to be made in both copies")
 	}
 }
